@@ -494,10 +494,11 @@ func (p *parser) parseNodeTest(n node, axeTyp string, matchType NodeType) (opnd 
 		} else {
 			prefix := p.r.prefix
 			name := p.r.name
-			p.next()
-			if p.r.name == "*" {
+			if name == "*" {
+				// prefix:* — test the name of this token, not whatever the scanner holds after the next one
 				name = ""
 			}
+			p.next()
 			opnd = newAxisNode(axeTyp, matchType, name, prefix, "", n, func(a *axisNode) {
 				if prefix != "" && p.namespaces != nil {
 					if ns, ok := p.namespaces[prefix]; ok {
